@@ -31,7 +31,7 @@ def instances(tier):
     lmax, pw, k = (20, 2, 32) if tier == "quick" else (28, 6, 48)
     UW = rc.unwind(lmax, k, pw)
     D = {"LMAX": lmax, "PW": pw, "KEXTRA": k}
-    out = [mk("c06_accessmap", "C06/c06.c", rc.UNITS, dict(D, MODE_ACCESSMAP=None), unwind=UW, default_unwind=3,
+    out = [mk("c06_accessmap", "C06/c06.c", rc.UNITS, dict(D, MODE_ACCESSMAP=None), unwind=UW, default_unwind=lmax + 2,
               encoded_units=["include/ufw/register-protocol.h"], fp_removal=True, replay_units=rc.REPLAY_UNITS, object_bits=12)]
     for tcp in (0, 1):
         for mode, extra in (("REQ", "REQ_READ"), ("REQ", "REQ_WRITE"), ("NONREQ", None)):
@@ -42,6 +42,6 @@ def instances(tier):
                 d["TCP"] = None
             nm = (extra or mode).lower()
             out.append(mk("c06_%s_%s" % (nm, "tcp" if tcp else "serial"), "C06/c06.c", rc.UNITS, d,
-                          unwind=UW, default_unwind=3, encoded_units=rc.ENC, fp_removal=True,
+                          unwind=UW, default_unwind=lmax + 2, encoded_units=rc.ENC, fp_removal=True,
                           replay_units=rc.REPLAY_UNITS, object_bits=12, timeout=3000))
     return out
